@@ -15,7 +15,9 @@ ASSUMPTIONS = [
     "inputs are chosen among cells that have a dependant leading to a chosen output (trim_graph raises "
     "ValueError for the others by design); values written to the inputs come from the clean pool",
     "the save/load leg goes through yml, json or pkl files in the check's work directory",
-    "unbounded row/column ranges are outside coq/Model/Trim.v: that stream is judged by the oracle alone",
+    "unbounded row/column ranges are outside coq/Model/Trim.v: the trim-unbounded stream is judged by the oracle "
+    "alone; the trim-colb stream (whole-column reference S!B:B as a node of range kind, alias of the bounded range "
+    "node) is model-backed except for the survival of the reference node itself (repair 17855a0 is not in Trim.v)",
 ]
 
 
